@@ -33,10 +33,14 @@ func pinOverlay(dir string) string {
 			}
 		}
 	}
+	pinUnconfirmedOrder(dir, replace)
 	if strings.Contains(dir, "overlay-simrt") {
+		// scheduled builds: pinned only while no scheduler is active (their sequential modes), under a
+		// scheduler the tape decides who wins the race
+		pinCachedVotes(dir, replace, true)
 		instrumentForSimrt(dir, replace)
 	} else {
-		pinCachedVotes(dir, replace)
+		pinCachedVotes(dir, replace, false)
 	}
 	if strings.Contains(dir, "smallgas") {
 		smallBlockGas(dir, replace)
@@ -57,7 +61,7 @@ func pinOverlay(dir string) string {
 // legal. The sequential engines pin "cached votes first, validators in key
 // order" by calling the loop's body in place; the scheduled (simrt) builds are
 // not pinned, there the plan's tape decides the order.
-func pinCachedVotes(dir string, replace map[string]string) {
+func pinCachedVotes(dir string, replace map[string]string, unlessScheduled bool) {
 	src := filepath.Join(repoPath, "protocol", "casper", "apply_block.go")
 	b, err := os.ReadFile(src)
 	if err != nil {
@@ -72,8 +76,13 @@ func pinCachedVotes(dir string, replace map[string]string) {
 		!strings.Contains(string(av), "func verificationCacheKey(") {
 		return
 	}
-	s = strings.Replace(s, send, "c.verifPinnedCachedMsgs(block.PreviousBlockHash)", 1)
-	s = strings.Replace(s, imp, "import (\n\t\"fmt\"\n\t\"sort\"\n", 1)
+	if unlessScheduled {
+		s = strings.Replace(s, send, "if verifsimrt.Active() != nil {\n\t\t\t"+send+"\n\t\t} else {\n\t\t\tc.verifPinnedCachedMsgs(block.PreviousBlockHash)\n\t\t}", 1)
+		s = strings.Replace(s, imp, "import (\n\t\"fmt\"\n\t\"sort\"\n\n\tverifsimrt \"verif/sim/simrt\"\n", 1)
+	} else {
+		s = strings.Replace(s, send, "c.verifPinnedCachedMsgs(block.PreviousBlockHash)", 1)
+		s = strings.Replace(s, imp, "import (\n\t\"fmt\"\n\t\"sort\"\n", 1)
+	}
 	s += `
 // verifPinnedCachedMsgs is added by the verification build overlay (not part of the
 // repository): the body of authVerificationLoop for one checkpoint, run in place.
@@ -124,6 +133,40 @@ func smallBlockGas(dir string, replace map[string]string) {
 	}
 	s = strings.Replace(s, decl, "MaxBlockGas    = uint64("+n+")", 1)
 	dst := filepath.Join(dir, "general.go")
+	if os.WriteFile(dst, []byte(s), 0o644) == nil {
+		replace[src] = dst
+	}
+}
+
+// pinUnconfirmedOrder: the reservation code lists the unconfirmed outputs by walking a Go map, so
+// which of several equally good outputs a reservation takes changes from run to run (every choice is
+// legal and the reference keeper is told the choice, so no oracle depends on it - but runs did not
+// repeat: determinism self-test, C26 25 of 29 repetitions differed). The overlay walks the map in
+// output-id order.
+func pinUnconfirmedOrder(dir string, replace map[string]string) {
+	src := filepath.Join(repoPath, "account", "utxo_keeper.go")
+	b, err := os.ReadFile(src)
+	if err != nil {
+		return
+	}
+	s := string(b)
+	const loop = "\tfor _, u := range uk.unconfirmed {\n\t\tappendUtxo(u)\n\t}\n"
+	if strings.Count(s, loop) != 1 || !strings.Contains(s, "\t\"sort\"\n") {
+		return
+	}
+	s = strings.Replace(s, loop, "\tfor _, u := range verifSortedUnconfirmed(uk.unconfirmed) {\n\t\tappendUtxo(u)\n\t}\n", 1)
+	s += `
+// verifSortedUnconfirmed is added by the verification build overlay (not part of the repository).
+func verifSortedUnconfirmed(m map[bc.Hash]*UTXO) []*UTXO {
+	out := make([]*UTXO, 0, len(m))
+	for _, u := range m {
+		out = append(out, u)
+	}
+	sort.Slice(out, func(i, j int) bool { return out[i].OutputID.String() < out[j].OutputID.String() })
+	return out
+}
+`
+	dst := filepath.Join(dir, "utxo_keeper.go")
 	if os.WriteFile(dst, []byte(s), 0o644) == nil {
 		replace[src] = dst
 	}
